@@ -250,6 +250,30 @@ CHECKS = {
             gofuzz("fuzz-yaml", "FuzzC13Yaml", 60),
         ],
     },
+    "C17": {
+        "technique": "rapid random generation of pairs and v1 metadata, round-trip oracle (in memory and through Render/ReadDiffString) judged by v1 Equals, metamorphic oracle len(Diff)==0 <=> Equals",
+        "level_text": "The v1 library (package lib) is driven with generated pairs under list, set, multiset, setkeys, merge (null-free) and precision metadata: the diff is applied in memory and "
+                      "after a text round trip (which must re-render identically) and must reproduce b; the diff must be empty exactly when Equals holds. Exploration over sampled pairs.",
+        "level_note": "Equality is v1's own Equals, as the statement says; v1 shares the hash-based set equality of v2 without type tags, which this property (coherence, not correctness of Equals) does not judge.",
+        "rule": "C01's pair generator with list-heavy profiles (arrays growing, shrinking and changing in place give -1 append indices and reverse-order deletions), C04's boundary pairs (20%) and "
+                "precision pairs (12%), under list, set, mset, setkeys:id, merge, prec:eps. Non-trivial: texts differ and (the diff is non-empty or the documents are Equal); distinct by (a, b, metadata).",
+        "assumptions": ["a fresh parse of a for every Patch"],
+        "legs": [
+            rapid("random", "TestC17Random", {"checks": 30000, "shards": 4}, {"checks": 300000, "shards": 16, "timeout": 6000}),
+        ],
+    },
+    "C18": {
+        "technique": "rapid random generation of v1 list-mode and merge-mode diffs, translation validated against independent RFC 6902 / RFC 7386 evaluators, plus read-back round trip",
+        "level_text": "v1 JSON Patch and JSON Merge Patch renderings of generated diffs are evaluated on a by the harness's RFC 6902 evaluator and RFC 7386 pseudocode and must yield b; "
+                      "read back with the v1 readers and applied to a they must yield b as well. Keys that look like integers and keys needing escaping are generated on purpose. Exploration over sampled pairs.",
+        "level_note": "Trusts ref/rfc.go. The read-back of the merge patch {} on a non-object a is the listed finding D17 (v1 has the same root special case as v2).",
+        "rule": "list leg: C09's pairs with the nasty key pool (integer-looking keys are not refused by v1; only the key \"-\" is); merge leg: C11's null-free unequal pairs under v1 MERGE. "
+                "Non-trivial: a patch with a context-free multi-op shape, an escaped or integer-looking token, an append token, or a merge patch with a null or {}; distinct by (a, b, metadata).",
+        "assumptions": ["RFC 6902 'remove' of the whole document leaves the empty (void) document"],
+        "legs": [
+            rapid("random", "TestC18Random", {"checks": 30000, "shards": 4}, {"checks": 300000, "shards": 16, "timeout": 6000}),
+        ],
+    },
     "C06": {
         "technique": "exhaustive enumeration of small array pairs + rapid random generation, oracle = independent LCS optimum and reference hunk interpreter",
         "level_text": "Every ordered pair of arrays over a small alphabet up to a length bound is enumerated (complete for that universe) and "
